@@ -600,8 +600,11 @@ class ConformationContainer:
             False (if group not found) or group
         """
         for group_ in self.groups:
+            # the residue name is part of the identity: the groups of an
+            # alt-loc/model point mutant must not be taken for each other
             if (group_.atom.residue_label == group.atom.residue_label
-                    and group_.atom.icode == group.atom.icode):
+                    and group_.atom.icode == group.atom.icode
+                    and group_.atom.res_name == group.atom.res_name):
                 if group_.type == group.type and id(group_) not in exclude:
                     return group_
         return False
